@@ -17,6 +17,7 @@ mod sexp;
 mod xml;
 mod streams;
 mod typegen;
+mod cxxcfg;
 
 use sexp::Sexp;
 use std::io::{BufRead, Write};
